@@ -598,6 +598,51 @@ func (e *e2e) negatives(thorough bool) {
 			}
 			return
 		}
+		// one bad stream in three is sent as the only part of a multipart upload instead: the same decoders sit in
+		// front of another handler, and what a wrongly accepted part holds shows once the upload is completed
+		if !j.def.kills && newPrng(e.base, "as-part/"+j.id).intn(3) == 0 {
+			pkey := j.key + ".as-part"
+			uid, cr := cl.CreateMPU(bkt, pkey)
+			if !cr.OK() {
+				c.Inconclusive("create upload refused: " + cr.String())
+				return
+			}
+			r := cl.Do(&s3c.Req{Method: "PUT", Path: s3c.ObjPath(bkt, pkey), Query: s3c.Q("partNumber", "1", "uploadId", uid), Body: sp.pay, Stream: st, Fragments: j.plan.frags})
+			c.Eval(1)
+			if r.Err != nil {
+				e.transportFailure(j.id, "corrupted chunked UploadPart "+j.def.kind, r, detail)
+				return
+			}
+			rdr := readerOf(sp.mode)
+			region := j.def.region
+			if region == "" {
+				region = coarseTrunc(&bstream{sp: sp, lay: j.lay}, st.TruncateAt)
+			}
+			c.Distinct("B|neg-part|" + sp.mode + "|" + j.def.kind + "|" + j.plan.name)
+			detail["upload_part"] = r.String()
+			lp := cl.Do(&s3c.Req{Method: "GET", Path: s3c.ObjPath(bkt, pkey), Query: s3c.Q("uploadId", uid)})
+			listed := strings.Contains(string(lp.Body), "<PartNumber>1</PartNumber>")
+			if !r.OK() {
+				if listed {
+					c.Violation("e2e:neg:"+rdr+":part:refused-but-part-stored", j.id, detail)
+				}
+				cl.AbortMPU(bkt, pkey, uid)
+				return
+			}
+			comp := cl.CompleteMPU(bkt, pkey, uid, []s3c.Part{{N: 1, ETag: r.Header.Get("Etag")}})
+			g := cl.GetObject(bkt, pkey)
+			detail["complete"], detail["get"], detail["got_len"], detail["got"] = comp.String(), g.String(), len(g.Body), preview(g.Body, 60)
+			same := comp.OK() && g.Status == 200 && bytes.Equal(g.Body, sp.pay)
+			switch {
+			case same && j.def.strict:
+				c.Violation("e2e:neg:"+rdr+":"+region+":part:accepted-unverified", j.id, detail)
+			case same:
+				c.Observe("lenient: gateway accepted a " + j.def.kind + " part upload (" + rdr + ") and stored exactly the payload")
+			default:
+				c.Violation("e2e:neg:"+rdr+":"+region+":part:accepted-different-or-short", j.id, detail)
+			}
+			return
+		}
 		r := cl.Do(&s3c.Req{Method: "PUT", Path: s3c.ObjPath(bkt, j.key), Body: sp.pay, Stream: st, Fragments: j.plan.frags})
 		c.Eval(1)
 		if r.Err != nil {
